@@ -2123,3 +2123,49 @@ pub mod sharedfx {
         v.into_iter().flat_map(|p| p.1).collect()
     }
 }
+
+// ---------------------------------------------------------------- R-HINT
+pub mod hintfx {
+    use std::sync::atomic::{AtomicU32, Ordering};
+    pub struct Store { pub next: AtomicU32, pub items: Vec<(u32, Vec<u8>)> }
+    impl Store {
+        pub fn ok_batch<I: IntoIterator<Item = Vec<u8>>>(&mut self, it: I) -> Vec<u32> {
+            let it = it.into_iter();
+            let mut ids = Vec::with_capacity(it.size_hint().0);
+            for b in it {
+                let id = self.next.fetch_add(1, Ordering::Relaxed);
+                self.items.push((id, b));
+                ids.push(id);
+            }
+            ids
+        }
+        pub fn bad_batch<I: IntoIterator<Item = Vec<u8>>>(&mut self, it: I) -> Vec<u32> {
+            let it = it.into_iter();
+            let expected = it.size_hint().0;
+            let first = self.next.fetch_add(expected as u32, Ordering::Relaxed);
+            let mut ids = Vec::with_capacity(expected);
+            for (i, b) in it.enumerate() {
+                let id = first + i as u32;
+                self.items.push((id, b));
+                ids.push(id);
+            }
+            ids
+        }
+    }
+}
+
+// ---------------------------------------------------------------- R-FLOW.builder
+pub mod builderfx {
+    pub struct Store { pub content: Vec<u8>, pub ends: Vec<usize> }
+    pub struct OkBuilder { pub content: Vec<u8>, pub ends: Vec<usize>, pub n: usize }
+    impl OkBuilder {
+        pub fn add_record(&mut self, d: &[u8]) { self.content.extend_from_slice(d); self.ends.push(self.content.len()); self.n += 1; }
+        fn into_store(self) -> Store { Store { content: self.content, ends: self.ends } }
+        pub fn finish(self) -> Store { self.into_store() }
+    }
+    pub struct BadBuilder { pub content: Vec<u8>, pub ends: Vec<usize>, pub n: usize }
+    impl BadBuilder {
+        pub fn add_record(&mut self, d: &[u8]) { self.content.extend_from_slice(d); self.ends.push(self.content.len()); self.n += 1; }
+        pub fn finish(self) -> Store { let _ends = self.ends; Store { content: Vec::new(), ends: Vec::new() } }
+    }
+}
